@@ -38,7 +38,7 @@ def write(here, pid, P, tier, seed, proof, bounded, n_viol, known_lines, undecid
             "obligations_by_backend": proof["by_backend"],
             "solver_seconds": proof["solver_seconds"],
             "slowest_obligations": proof["slowest"],
-            "lemmas": proof.get("lemmas", []),
+            "lemmas": [f.get("contract") for f in proof["functions"] if str(f.get("contract", "")).startswith("lemma.")],
             "vacuity_guards": proof.get("vacuity", {}),
             "dropped_by_extraction": "docstring expression statements only; every other statement of the function body is executed symbolically",
             "not_discharged": proof.get("not_discharged", []),
